@@ -5,6 +5,8 @@ from core import hx, unhx
 
 LEAN_MODULE = 'QM.Props.C01'
 THEOREMS = ['P.C01_roundtrip', 'P.C01_count', 'P.C01_empty_kept',
+            'Cv.C01_container_exec_lines', 'Cv.C01_pod_exec_lines', 'Cv.C01_kube_exec_lines', 'Cv.C01_volume_exec_lines', 'Cv.C01_network_exec_lines', 'Cv.C01_build_exec_lines',
+            'Cv.execs_of', 'Cv.execs_fromContainer',
             # facts about the tables extracted from quoted.rs that the round-trip proof rests on
             'P.quoteArms_sound', 'P.quoteDefaultFmt_eq', 'P.threshold_le', 'P.escChars_ascii', 'P.active_needsEsc']
 ASSUMPTIONS = [
@@ -15,10 +17,13 @@ ASSUMPTIONS = [
 LEVEL_TEXT = ('Proof: Lean theorem C01_roundtrip — for every list of NUL-free words, iterating the transcription of systemd\'s '
               'extract_first_word(UNQUOTE|CUNESCAPE) over the model of quote_words returns exactly the words (induction over words and characters, '
               'no bound). The model takes its escape arms, character classes and threshold from the Rust source on every run (T1), so the theorem '
-              'is re-checked against what the code says now; its control flow is tied by correspondence. The oracle applies the specification '
+              'is re-checked against what the code says now; its control flow is tied by correspondence. For every converter model, every Exec*= '
+              'entry of the generated [Service] is proved to be either one of the user\'s own [Service] entries or quote_words of an argument vector '
+              '(C01_<type>_exec_lines: add / set / prepend never write an Exec key, add_raw only receives renderings), which systemd therefore splits '
+              'into exactly that vector (.image: C02_image_shape). The oracle applies the specification '
               'splitter to the real quote_words output and to every Exec* line of really converted units.')
 LEVEL_NOTE = ('Trusted: Lean kernel; the transcription of systemd\'s splitter; extractor; correspondence on generated inputs. '
-              'Exec* lines of converted units are checked on generated units (oracle), not proved for every converter path yet.')
+              'The converter models are tied to convert.rs by the convert correspondence and by the raw-store site inventory (C06).')
 TECHNIQUE = 'Lean 4 proof of the quote/split round trip over tables regenerated from the source + correspondence + spec oracle on real output'
 
 
